@@ -114,6 +114,14 @@ def _loosen(v):
     return v
 
 
+class _Awaitable(object):
+    def __init__(self, coro):
+        self._coro = coro
+
+    def __await__(self):
+        return self._coro.__await__()
+
+
 class _UpstreamResponse(object):
     def __init__(self, reason, extensions):
         self.reason, self.extensions = reason, extensions
@@ -497,6 +505,14 @@ class Binding(object):
 
         if (typename, fieldname) in self.async_fields:
             aresolver.__name__ = "aresolve_%s_%s" % (typename, fieldname)
+            if int(h64("awaitable:" + typename + "." + fieldname)[:2], 16) % 4 == 0:
+                # a plain function handing back an awaitable that is neither a coroutine nor a future (an object
+                # with __await__, what many client libraries return)
+                def awaitable_resolver(parent, context, info, **kwargs):
+                    return _Awaitable(aresolver(parent, context, info, **kwargs))
+
+                awaitable_resolver.__name__ = "awaitable_%s_%s" % (typename, fieldname)
+                return awaitable_resolver
             return aresolver
         resolver.__name__ = "resolve_%s_%s" % (typename, fieldname)
         return resolver
